@@ -18,7 +18,7 @@ import os
 import time
 from fractions import Fraction
 
-from vlib import (INT_TYPES, UBSAN_ENV, Driver, cxx, kv, pmap, run, ty_hi, ty_lo, SAN_CLANG, SAN_GCC)
+from vlib import (INT_TYPES, Driver, cxx, kv, pmap, run, ty_hi, ty_lo, SAN_CLANG, SAN_GCC)
 from intconv import _cheap
 
 OPS_COMMON = ["eq", "ne", "lt", "le", "gt", "ge", "add", "sub"]
@@ -34,6 +34,10 @@ OVERFLOW_THRESHOLD = 2147
 # ------------------------------------------------------------------------------------------------
 # C++ facts used by the oracle (independent re-statement of [conv.prom], [expr.arith.conv])
 # ------------------------------------------------------------------------------------------------
+
+UBSAN_ENV = {"UBSAN_OPTIONS": "suppress_equal_pcs=0:print_summary=0",
+             "ASAN_OPTIONS": "detect_leaks=0:handle_sigfpe=0:allow_user_segv_handler=1"}
+
 
 def promote(t):
     return "i32" if INT_TYPES[t][1] < 32 else t
@@ -204,6 +208,9 @@ HARNESS_COMMON = r'''
 #include <cstdio>
 #include <cstdlib>
 #include <cstring>
+#include <csetjmp>
+#include <csignal>
+#include <unistd.h>
 #include <limits>
 #include <string>
 #include <type_traits>
@@ -378,10 +385,21 @@ static i128 wrapto(i128 x, int bits, int sg) {
     if (sg && r >= (m >> 1)) r -= m;
     return r;
 }
+// A trapping operation (integer division by zero, min % -1) must not take the harness down: it is an answer.
+static sigjmp_buf g_jmp; static volatile sig_atomic_t g_armed = 0;
+static void on_fpe(int) { if (g_armed) siglongjmp(g_jmp, 1); _exit(3); }
+static bool call_op(const Entry* e, int w, i128 a, i128 b, i128* out) {
+    if (sigsetjmp(g_jmp, 1)) { g_armed = 0; return false; }
+    g_armed = 1;
+    *out = e->op(w, a, b);
+    g_armed = 0;
+    return true;
+}
 static const char* OPN[] = {"eq", "ne", "lt", "le", "gt", "ge", "add", "sub", "mod", "cmp3"};
 struct Stat { long n = 0, badout = 0, badown = 0, ubout = 0, ubown = 0, dn = 0; uint64_t h = 0; std::string firstout = "-", firstown = "-", firstubout = "-", firstubown = "-"; };
 int main() {
     static char line[1024];
+    signal(SIGFPE, on_fpe);
     while (fgets(line, sizeof line, stdin)) {
         char cmd = line[0];
         if (cmd == 'I') {
@@ -394,8 +412,9 @@ int main() {
             if (sscanf(line + 1, "%d %d %63s %63s", &id, &w, a[0], a[1]) != 4) { puts("bad"); continue; }
             const Entry* e = find(id); if (!e) { puts("bad"); continue; }
             long ub0 = g_ub;
-            i128 r = e->op(w, p128(a[0]), p128(a[1]));
-            printf("P %d %d val=%s ub=%ld\n", id, w, s128(r).c_str(), g_ub - ub0);
+            i128 r = 0;
+            const bool okc = call_op(e, w, p128(a[0]), p128(a[1]), &r);
+            printf("P %d %d val=%s ub=%ld\n", id, w, okc ? s128(r).c_str() : "trap", g_ub - ub0);
         } else if (cmd == 'F') {
             int id, w; long double x, y;
             if (sscanf(line + 1, "%d %d %La %La", &id, &w, &x, &y) != 4) { puts("bad"); continue; }
@@ -447,18 +466,14 @@ int main() {
                     if (!scope) continue;
                     dscope = (w < 8) ? true : fo;
                     Stat& s = st[w];
-                    if (w == 8 && !fo) {
-                        // the implementation scales in the operand's own rep: if the narrowed divisor is 0 (or the
-                        // narrowed operands are min % -1) executing would trap; record it as a mismatch instead
-                        const i128 aw = wrapto(A, e->bits1, e->sg1), bw = wrapto(B, e->bits2, e->sg2);
-                        if (bw == 0 || (bw == -1 && aw == mlo)) {
-                            ++s.n;
-                            if (!s.badout++) s.firstout = s128(v1) + "," + s128(v2) + ",trap," + s128(want);
-                            continue;
-                        }
-                    }
                     long ub0 = g_ub;
-                    const i128 r = e->op(w, v1, v2);
+                    i128 r = 0;
+                    if (!call_op(e, w, v1, v2, &r)) {
+                        ++s.n;
+                        if (dscope) { if (!s.badown++) s.firstown = s128(v1) + "," + s128(v2) + ",trap," + s128(want); }
+                        else { if (!s.badout++) s.firstout = s128(v1) + "," + s128(v2) + ",trap," + s128(want); }
+                        continue;
+                    }
                     got[w] = r; have[w] = true;
                     ++s.n;
                     if (g_ub != ub0) {
@@ -472,7 +487,7 @@ int main() {
                     if (dscope) { ++s.dn; s.h += ((uint64_t)r + 1ull) * wt; }
                 }
                 // mutual consistency of the six comparisons on the implementation's own answers, and mirror forms
-                if (e->common_ok) {
+                if (e->common_ok && have[0] && have[1] && have[2] && have[3] && have[4] && have[5]) {
                     bool ok = true;
                     const bool eq = got[0], ne = got[1], lt = got[2], le = got[3], gt = got[4], ge = got[5];
                     ok = ok && (int(lt) + int(eq) + int(gt) == 1) && (ne == !eq) && (le == (lt || eq)) && (ge == (gt || eq));
@@ -904,12 +919,6 @@ def explore(prop, tier, seed, rng, wd):
                     if not o["scope"]:
                         stats["skipped_out_of_scope"] += 1
                         continue
-                    if op == "mod" and not o["fits_own"] and would_trap(i, v1 * k1, v2 * k2):
-                        rec = dict(base_rec(i, cfg), kind="oracle", op=op, v1=v1, v2=v2, k1=k1, k2=k2, fits_common=True,
-                                   fits_own=False, got="trap", want=o["want"])
-                        pending.append({"what": "% would divide by zero after narrowing the divisor to its own rep",
-                                        "class": f"oracle-mod-{i['r1']}-{i['r2']}", "rec": rec})
-                        continue
                     preq.append((i["id"], op, v1, v2, o))
         treq = triangle_requests(tri, tvals, mu, gates, preq, stats)
         for (iid, op, v1, v2, o) in preq:
@@ -968,7 +977,7 @@ def explore(prop, tier, seed, rng, wd):
                                        "no_input": True, "broken": "correspondence: c08op line protocol",
                                        "rec": dict(rec, kind="corr", model=mans[pi - 1], impl=a)})
                 # oracle
-                bad = (o["want"] is None) or int(r["val"]) != o["want"] or r["ub"] != "0"
+                bad = (o["want"] is None) or r["val"] == "trap" or int(r["val"]) != o["want"] or r["ub"] != "0"
                 if bad:
                     v = {"what": f"{op} on ({v1} [{ins['n1']}/{ins['d1']}] {ins['r1']}, {v2} [{ins['n2']}/{ins['d2']}] {ins['r2']}) "
                                  f"returns {r['val']} (sanitizer reports: {r['ub']}), exact answer {o['want']}",
@@ -1325,8 +1334,10 @@ def replay(prop, rec):
         print("replay: harness does not build:", err["output"][-1500:])
         return 1
     v1, v2 = int(r["v1"]), int(r["v2"])
-    ops = OPS if op in ("consistency",) else [op]
+    cpp20 = cfg[1].endswith("c++20")
+    ops = (["eq", "ne", "lt", "le", "gt", "ge"] + (["cmp3"] if cpp20 else [])) if op in ("consistency",) else [op]
     code = 0
+    got = {}
     for o in ops:
         if o not in OPCODE:
             continue
@@ -1338,10 +1349,11 @@ def replay(prop, rec):
         m = drv.ask([f"c08op {o} {inst_key(ins)} {v1} {v2}"])[0]
         orc = oracle(ins, o, v1, v2, int(info["k1"]), int(info["k2"]))
         a = kv(ans[1])
+        got[o] = a["val"]
         print("impl  :", ans[0], "|", ans[1])
         print("model :", m)
         print("oracle:", orc)
-        if orc["scope"] and (orc["want"] is None or int(a["val"]) != orc["want"] or a["ub"] != "0"):
+        if orc["scope"] and (orc["want"] is None or a["val"] == "trap" or int(a["val"]) != orc["want"] or a["ub"] != "0"):
             tag = " (matches PENDING finding F11)" if is_pending(dict(r, op=o, kind="oracle", fits_common=orc["fits_common"], fits_own=orc["fits_own"])) else ""
             print(f"VIOLATION property={prop} replay={rec.get('_path', '<given>')}{tag}")
             code = 1
@@ -1351,6 +1363,13 @@ def replay(prop, rec):
             if orc["scope"] and mval != a["val"]:
                 print(f"VIOLATION property={prop} replay={rec.get('_path', '<given>')} no-failing-input-found")
                 code = 1
+    if op == "consistency" and all(o in got for o in ("eq", "ne", "lt", "le", "gt", "ge")):
+        b = {o: got[o] == "1" for o in got if o != "cmp3"}
+        ok = (int(b["lt"]) + int(b["eq"]) + int(b["gt"]) == 1 and b["ne"] == (not b["eq"]) and b["le"] == (b["lt"] or b["eq"])
+              and b["ge"] == (b["gt"] or b["eq"]))
+        if not ok and code == 0:
+            print(f"VIOLATION property={prop} replay={rec.get('_path', '<given>')}")
+            code = 1
     if code == 0:
         print("replay: property holds on this case")
     return code
